@@ -991,7 +991,11 @@ fn post_mutate(rng: &mut Rng, m: &mut GenModel, lim: &GenLimits) {
     // to the factor; exact in f64): magnitudes from 1/8 up to 1024 times the palette
     if !lim.integer_data && !m.rows.is_empty() && rng.chance(1, 12) {
         let i = rng.usize(0, m.rows.len() - 1);
-        let f = *rng.pick(&[0.125, 0.25, 4.0, 64.0, 1024.0]);
+        let mut f = *rng.pick(&[0.125, 0.25, 4.0, 64.0, 1024.0]);
+        // triage aid (never set by the registered commands): force one factor
+        if let Some(forced) = std::env::var("VERIF_ROW_FACTOR").ok().and_then(|s| s.parse::<f64>().ok()) {
+            f = forced;
+        }
         for c in m.rows[i].coefs.iter_mut() {
             *c *= f;
         }
